@@ -13,7 +13,7 @@ if [ -f "$OUT/libss.a" ] && [ -f "$OUT/.done" ]; then echo "$OUT"; exit 0; fi
 # prune old tree-hash dirs: keep the 8 most recent besides this one, and never one touched in the last two hours
 # (another check may be running from it)
 mkdir -p "$VERIF/build"
-for d in $(ls -1dt "$VERIF"/build/*/ 2>/dev/null | grep -v "/$HASH/" | tail -n +9); do
+for d in $(ls -1dt "$VERIF"/build/*/ 2>/dev/null | grep -v "/$HASH/" | grep -v "/runs/" | tail -n +9); do
   [ -n "$(find "$d" -maxdepth 2 -mmin -120 -print -quit 2>/dev/null)" ] || rm -rf "$d"
 done
 rm -rf "$OUT"; mkdir -p "$OUT/obj"
